@@ -15,7 +15,9 @@ import (
 	"os"
 	"runtime/debug"
 	"strconv"
+	"strings"
 	"sync"
+	"syscall"
 	"time"
 
 	"wa-lang.org/wa/internal/zzverif/mc"
@@ -27,6 +29,7 @@ type Job struct {
 	ID        string
 	Src       string
 	N         int
+	Only      []int    // when set: run only these cases (the others stay "skipped")
 	Expect    []string // when set: stop after the first case whose outcome is not "ok" with this output
 	HorizonMs int64    // per case
 }
@@ -43,10 +46,25 @@ type JobResult struct {
 var (
 	cachedKey  string
 	cachedProg *wrun.WaProg
+	limitOnce  sync.Once
 )
+
+// limitMemory caps the address space of a worker: a generated program that allocates without end
+// (a corrupted container that keeps appending) must end as a crashed worker, not as an exhausted
+// machine.
+func limitMemory() {
+	lim := uint64(12) << 30
+	if s := os.Getenv("HRUN_AS_LIMIT_GB"); s != "" {
+		if v, err := strconv.Atoi(s); err == nil && v > 0 {
+			lim = uint64(v) << 30
+		}
+	}
+	_ = syscall.Setrlimit(syscall.RLIMIT_AS, &syscall.Rlimit{Cur: lim, Max: lim})
+}
 
 // HandleJob is the worker entry point (mc.WorkerMain(hrun.HandleJob)).
 func HandleJob(raw json.RawMessage) interface{} {
+	limitOnce.Do(limitMemory)
 	var j Job
 	if err := json.Unmarshal(raw, &j); err != nil {
 		return JobResult{Err: err.Error()}
@@ -73,7 +91,14 @@ func HandleJob(raw json.RawMessage) interface{} {
 	for i := range out.Res {
 		out.Res[i].Status = "skipped"
 	}
+	only := map[int]bool{}
+	for _, i := range j.Only {
+		only[i] = true
+	}
 	for i := 0; i < j.N; i++ {
+		if j.Only != nil && !only[i] {
+			continue
+		}
 		fmt.Fprintf(os.Stderr, "HRUNPROGRESS %s case %d\n", j.ID, i)
 		t0 := time.Now()
 		done := make(chan wrun.CaseResult, 1)
@@ -121,8 +146,11 @@ var (
 )
 
 // Run executes every program on Go and on Wa. stopFirst: the Wa side of a program stops at its
-// first case that deviates from the Go output (the later cases stay "skipped").
-func Run(r *mc.Run, pool *mc.Pool, ps []*Program, stopFirst bool) {
+// first case that deviates from the Go output (the later cases stay "skipped"). Otherwise every
+// case gets a verdict: the cases behind one that did not return are handed to a fresh worker.
+// obeyDeadline: once r's deadline has passed no further jobs are started (their cases stay
+// "skipped"; the caller records the cap).
+func Run(r *mc.Run, pool *mc.Pool, ps []*Program, stopFirst, obeyDeadline bool) {
 	goDone := make(chan struct{})
 	goRun := func() {
 		mc.ParallelFor(len(ps), func(i int) {
@@ -140,20 +168,37 @@ func Run(r *mc.Run, pool *mc.Pool, ps []*Program, stopFirst bool) {
 		safety = max(safety, time.Duration(p.N)*p.Horizon)
 	}
 	safety += 10 * time.Minute
-	todo := make([]int, len(ps))
-	for i := range todo {
-		todo[i] = i
+	type item struct {
+		p         int
+		only      []int
+		tries     int
+		lastCrash int
 	}
-	for attempt := 0; len(todo) > 0 && attempt < 4; attempt++ {
-		var again []int
+	var todo []item
+	for i, p := range ps {
+		p.Wa = JobResult{Res: make([]wrun.CaseResult, p.N), Ms: make([]int64, p.N)}
+		for k := range p.Wa.Res {
+			p.Wa.Res[k].Status = "skipped"
+		}
+		p.WaErr = ""
+		todo = append(todo, item{p: i, lastCrash: -1})
+	}
+	for len(todo) > 0 {
+		if obeyDeadline && r.Expired() {
+			break
+		}
+		var again []item
 		var mu sync.Mutex
+		jobIDs := make([]string, len(todo))
 		err := pool.Run(len(todo), func(k int) interface{} {
-			p := ps[todo[k]]
+			it := todo[k]
+			p := ps[it.p]
 			seqMu.Lock()
 			seq++
 			id := fmt.Sprintf("j%d", seq)
 			seqMu.Unlock()
-			j := Job{ID: id, Src: p.Src, N: p.N, HorizonMs: p.Horizon.Milliseconds()}
+			jobIDs[k] = id
+			j := Job{ID: id, Src: p.Src, N: p.N, Only: it.only, HorizonMs: p.Horizon.Milliseconds()}
 			if stopFirst && p.GoErr == nil {
 				for _, g := range p.GoRes {
 					j.Expect = append(j.Expect, g.Out)
@@ -161,20 +206,78 @@ func Run(r *mc.Run, pool *mc.Pool, ps []*Program, stopFirst bool) {
 			}
 			return j
 		}, safety, func(res mc.Result) {
-			p := ps[todo[res.Index]]
+			it := todo[res.Index]
+			p := ps[it.p]
 			if res.Status != "ok" {
-				mu.Lock()
-				again = append(again, todo[res.Index])
-				mu.Unlock()
-				p.WaErr = "worker " + res.Status + ": " + tail(res.Stderr, 800)
+				// The worker died or exceeded the safety net. If it died while running a case of this
+				// job (progress line on its stderr) twice in a row at the same case, that case's
+				// verdict is "crash" and the remaining cases go to a fresh worker. Otherwise (e.g. the
+				// worker was retiring after a hang in its previous job) the job is simply retried.
+				at := -1
+				marker := "HRUNPROGRESS " + jobIDs[res.Index] + " case "
+				if i := strings.LastIndex(res.Stderr, marker); i >= 0 {
+					rest := res.Stderr[i+len(marker):]
+					if nl := strings.IndexByte(rest, '\n'); nl >= 0 {
+						rest = rest[:nl]
+					}
+					if v, err := strconv.Atoi(strings.TrimSpace(rest)); err == nil {
+						at = v
+					}
+				}
+				if at >= 0 && at == it.lastCrash {
+					p.Wa.Res[at] = wrun.CaseResult{Status: "crash", Err: "worker " + res.Status + ": " + firstLine(tail(res.Stderr[strings.LastIndex(res.Stderr, marker):], 600))}
+					var rest []int
+					for k := 0; k < p.N; k++ {
+						if p.Wa.Res[k].Status == "skipped" && (it.only == nil || contains(it.only, k)) && k != at {
+							rest = append(rest, k)
+						}
+					}
+					if len(rest) > 0 && !stopFirst {
+						mu.Lock()
+						again = append(again, item{p: it.p, only: rest, lastCrash: -1})
+						mu.Unlock()
+					}
+					return
+				}
+				if it.tries < 5 {
+					it.tries++
+					it.lastCrash = at
+					mu.Lock()
+					again = append(again, it)
+					mu.Unlock()
+				} else {
+					p.WaErr = "worker " + res.Status + ": " + tail(res.Stderr, 800)
+				}
 				return
 			}
-			p.WaErr = ""
-			p.Wa = JobResult{}
-			if err := json.Unmarshal(res.Out, &p.Wa); err != nil {
+			var jr JobResult
+			if err := json.Unmarshal(res.Out, &jr); err != nil {
 				p.WaErr = "bad worker output: " + err.Error()
-			} else if p.Wa.Err != "" {
-				p.WaErr = p.Wa.Err
+				return
+			}
+			if jr.Err != "" {
+				p.WaErr = jr.Err
+				p.Wa.WaSrc = jr.WaSrc
+				return
+			}
+			var rest []int
+			hung := false
+			for k := range jr.Res {
+				if it.only != nil && !contains(it.only, k) {
+					continue
+				}
+				p.Wa.Res[k] = jr.Res[k]
+				p.Wa.Ms[k] = jr.Ms[k]
+				if jr.Res[k].Status == "hang" {
+					hung = true
+				} else if jr.Res[k].Status == "skipped" {
+					rest = append(rest, k)
+				}
+			}
+			if hung && !stopFirst && len(rest) > 0 {
+				mu.Lock()
+				again = append(again, item{p: it.p, only: rest, lastCrash: -1})
+				mu.Unlock()
 			}
 		})
 		if err != nil {
@@ -183,6 +286,23 @@ func Run(r *mc.Run, pool *mc.Pool, ps []*Program, stopFirst bool) {
 		todo = again
 	}
 	<-goDone
+}
+
+func contains(xs []int, x int) bool {
+	for _, v := range xs {
+		if v == x {
+			return true
+		}
+	}
+	return false
+}
+
+func firstLine(s string) string {
+	ls := strings.SplitN(s, "\n", 4)
+	if len(ls) > 3 {
+		ls = ls[:3]
+	}
+	return strings.Join(ls, " / ")
 }
 
 func tail(s string, n int) string {
